@@ -19,7 +19,11 @@ CHECKS = {
     "C20": dict(
         text=("Theorems (Props/C20.v) about the Gallina model of Linear.call: per-unit formula, monotone for every "
               "pair of points under sign constraints, monotonic/range dominance effects, weighted average. The model "
-              "is tied to linear_layer.py by evaluating layer and model on the same points on every run."),
+              "is tied to linear_layer.py by evaluating layer and model on the same points on every run. Closed over "
+              "the C06 constraint model: for every kernel column and valid configuration the layer evaluated with the "
+              "PROJECTED weights is monotone, satisfies both dominance effects and (order 1, all increasing, column not "
+              "numerically zero; refuted witness for the zero column, D32) is a weighted average; both call branches, "
+              "no-bias form, unit forms. A third of the run-time cases apply the real kernel constraint before the call."),
         note="Model/LinearEval.v hand-written from Linear.call/build; clip handling of +-inf modelled as optional bounds.",
         technique="Coq proof over Q model + in-Coq correspondence with the Keras layer",
         design="7/C20"),
@@ -128,8 +132,13 @@ CHECKS["C08"] = dict(
           "is the Euclidean-nearest feasible kernel (variational inequality) for the six exact families; each of "
           "their group updates IS the nearest-point map onto its constraint group (coefficients, parities and "
           "signs checked by proof); range-dominance corner update refuted as a projection (the property claims "
-          "nearest only for the six families); PWL feasible-fixed re-exported. Convergence of the iterates "
-          "(Boyle-Dykstra) is cited, not proved, and tested against an independent exact projection (NNLS)."),
+          "nearest only for the six families); PWL feasible-fixed re-exported. The quantitative core of "
+          "Boyle-Dykstra is proved on the model for the six exact families (exact potential identity): after ANY number "
+          "of sweeps the kernel is not farther from ANY feasible kernel than the input, the squared sweep movements "
+          "sum to at most dist2(W0, Y), some sweep among the first n moves by at most dist2(W0, Y)/n, and a sweep with "
+          "zero movement yields the nearest feasible kernel. Only the existence of the limit of the iterates is still "
+          "cited; it is tested against an independent exact projection (NNLS) and by 300-sweep convergence cases for "
+          "all eight families."),
     note="Models: Model/LatticeDykstra.v, Model/PWLProject.v. Asymptotic clauses (violation -> 0, closeness at "
          "finite n) are differential testing, labelled as such in the evidence.",
     technique="Coq proof (Dykstra fixpoint theory, half-space projections) + in-Coq correspondence + NNLS oracle test",
@@ -142,8 +151,11 @@ CHECKS["C09"] = dict(
           "SINGLE-unit models on each column and compares with the columns of the implementation's multi-unit "
           "result; output-unit and batch independence of all layer kinds, CDF, functional forms, RTL and two "
           "premade models are differential tests on the implementation."),
-    note="Batch handling inside TensorFlow kernels and layer output-unit independence are observed, not modelled; "
-         "KFL per-unit: tested on the implementation.",
+    note="KroneckerFactoredLattice: per-unit simulation of every constraint step and history, unit permutation, the "
+         "kernel layout slice and output locality are proved on Model/KFL.v (C09_kfl_*), and the one-unit model is "
+         "replayed in Coq against unit u of the multi-unit implementation; output locality is also proved for the "
+         "Linear, Categorical, PWL and Lattice evaluation models. Batch handling inside TensorFlow kernels is observed "
+         "(differential tests), not modelled.",
     technique="Coq simulation proofs + in-Coq single-unit model vs multi-unit implementation columns",
     design="7/C09")
 CHECKS["C10"] = dict(
@@ -174,7 +186,10 @@ CHECKS["C03"] = dict(
          "variable.constraint, constructors not applying it and set_weights copying verbatim are observed runtime "
          "behaviour, not modelled; KFL-parameterised members, RTL internals and Crystals prefitting are covered by "
          "implementation-side histories only; unimodality/dominance/joint constraints of premade lattices are "
-         "exercised, not proved. Open known finding D32.",
+         "exercised, not proved. Kronecker-factored members (via the C07 development, tf_keras constraint order "
+         "modelled for both optimizer generations) and RTL-wired ensembles (via the C17 wiring theorems) are covered "
+         "by the composition and reachable-feasibility theorems; single-lattice KFL premade models are compared "
+         "weight for weight with the Coq model. Open known findings D32, D57.",
     technique="Coq proof (state-machine invariant + composition of monotone maps) + in-Coq correspondence with premade models under training histories",
     design="7/C03")
 CHECKS["C07"] = dict(
@@ -258,7 +273,10 @@ CHECKS["C16"] = dict(
           "call (ValueError up front, or accepted and finite), synonym twins must behave identically."),
     note="Translator harness/translators/gen_canon.py and Model/PyVal.v (Python semantics) are trusted. 'accepted => "
          "total and finite' is tested on random dyadic weights, not proved; exceptions from Python typing are "
-         "invisible to the typed Verify.v model and found by the constructor runs. Open known findings D41-D51.",
+         "invisible to the typed Verify.v model and found by the constructor runs. Theorems about Model/Verify.v: "
+         "every conjunct of every accepts_* function has a 'violating it => rejected' theorem in user terms, and an "
+         "accepted configuration satisfies the validity hypotheses of the C01 / C04 / C06 / C07 theorems (bridges). "
+         "Open known findings D42-D51.",
     technique="Coq proof over functions translated from source + in-Coq correspondence of accept/reject decisions",
     design="7/C16")
 
